@@ -48,6 +48,53 @@ def defining_integral(z, mx, my, sx, sy):
     return mpmath.quad(f, pts)
 
 
+def batch_oracle(R, pr, n):
+    """any number of stations / location samples / tensors: a batched call equals, cell by cell, the sum over stations of the
+    one-station one-sample one-tensor value at the modelled amplitudes a.m (the kernel whose density is judged above)"""
+    bad = None
+    shapes = {}
+    for i in range(n):
+        S, K, M = R.rng.choice([1, 2, 3, 6]), R.rng.choice([1, 1, 2, 3, 6]), R.rng.choice([1, 2, 5, 6, 6, 7, 12])
+        a1 = np.array([[[R.rng.uniform(-1, 1) for _ in range(6)] for _ in range(K)] for _ in range(S)])
+        a2 = np.array([[[R.rng.uniform(-1, 1) for _ in range(6)] for _ in range(K)] for _ in range(S)])
+        mt = np.array([[R.rng.gauss(0, 1) for _ in range(M)] for _ in range(6)])
+        mt = mt / np.sqrt((mt * mt).sum(axis=0))
+        ratio = np.array([10 ** R.rng.uniform(-1, 1) for _ in range(S)])
+        px = np.array([R.rng.choice([0.01, 0.1, 0.5, 2.0]) for _ in range(S)])
+        py = np.array([R.rng.choice([0.01, 0.1, 0.5, 2.0]) for _ in range(S)])
+        shapes['%dx%dx%d' % (S, K, M)] = shapes.get('%dx%dx%d' % (S, K, M), 0) + 1
+        R.count(('batch', i), nontrivial=M > 1)
+        case = {'check': 'batched call equals the per-station, per-sample, per-tensor values', 'a1': a1.tolist(), 'a2': a2.tolist(), 'mt': mt.tolist(),
+                'ratio': ratio.tolist(), 'frac_x': px.tolist(), 'frac_y': py.tolist()}
+        why = batch_check(pr, case)
+        if why:
+            bad = bad or dict(case, why=why)
+    R.cov['batch_shapes_stations_x_samples_x_tensors'] = dict(sorted(shapes.items(), key=lambda kv: -kv[1])[:12])
+    return bad
+
+
+def batch_check(pr, case):
+    a1, a2, mt = np.array(case['a1']), np.array(case['a2']), np.array(case['mt'])
+    ratio, px, py = np.array(case['ratio']), np.array(case['frac_x']), np.array(case['frac_y'])
+    S, K, M = a1.shape[0], a1.shape[1], mt.shape[1]
+    try:
+        with np.errstate(all='ignore'):
+            got = np.asarray(pr.amplitude_ratio_ln_pdf(ratio.copy(), mt.copy(), a1.copy(), a2.copy(), px.copy(), py.copy()), dtype=float)
+    except Exception as ex:
+        return 'raised %s: %s' % (type(ex).__name__, ex)
+    if got.size != K * M:
+        return 'result of shape %r for %d location samples and %d tensors' % (got.shape, K, M)
+    got = got.reshape(K, M)
+    for k in range(K):
+        for m in range(M):
+            want = sum(scalar_ar(pr, ratio[s], float(a1[s, k].dot(mt[:, m])), float(a2[s, k].dot(mt[:, m])), px[s], py[s]) for s in range(S))
+            if (want < -700 and got[k, m] < -700) or got[k, m] == want:
+                continue
+            if not abs(got[k, m] - want) <= 1e-7 * max(1.0, abs(want)):
+                return 'location sample %d, tensor %d: %r, expected %r' % (k, m, float(got[k, m]), want)
+    return None
+
+
 def gen_params(rng):
     scale = 10 ** rng.uniform(-7, 1)
     mx = scale * rng.uniform(0.05, 1) * rng.choice([-1, 1])
@@ -142,6 +189,9 @@ def run(R):
             bad = {'check': 'likelihood integrates to one over r > 0 (numerical validation)', 'mu_x': mx, 'mu_y': my, 'frac_x': px, 'frac_y': py,
                    'integral': tot, 'quadrature_error_estimate': err}
     R.cov['normalisation_validation_max_abs_error'] = worst
+    bb = batch_oracle(R, pr, R.n(60, 1500))
+    if bb and bad is None:
+        bad = bb
     if bad:
         R.violation('amplitude-ratio likelihood: %s fails' % bad['check'], bad)
     R.cov['rule'] = ('modelled amplitudes over 8 orders of magnitude and both signs, fractional errors in [1e-5, 5], observed ratios at, near and '
@@ -153,6 +203,10 @@ def run(R):
 def replay(R, body):
     pr = _impl()
     rp = body['replay']
+    if 'a1' in rp:
+        why = batch_check(pr, rp)
+        print('oracle:', why or 'holds')
+        return 1 if why else 0
     if 'r' in rp:
         got = scalar_ar(pr, rp['r'], rp['mu_x'], rp['mu_y'], rp['frac_x'], rp['frac_y'])
         print('ln_p', got, 'expected', rp.get('expected_ln_p'))
